@@ -189,6 +189,10 @@ def choices():
     out += [(anyalt3, ('q', {'a': 1})), (anyalt3, ('s', b'segmented')), (anyalt3, ('y', b'\x05\x00'))]
     holder = T('SEQUENCE', [], fields=[('c', anyalt, 'req'), ('z', T('INTEGER', [('I', CTX, 0)]), 'opt')])
     out += [(holder, {'c': ('y', b'\x0c\x02hi'), 'z': 1}), (holder, {'c': ('i', 3)})]
+    # ... holding what a CER-encoded inner value looks like: an indefinite-length element with another one inside
+    cer_inner = b'\x30\x80\x02\x01\x07\x30\x80\x01\x01\xff\x00\x00\x00\x00'
+    out += [(anyalt, ('y', cer_inner)), (holder, {'c': ('y', cer_inner), 'z': 2}),
+            (T('ANY', [('E', CTX, 3)]), cer_inner), (T('ANY'), cer_inner)]
     return out
 
 
